@@ -117,6 +117,21 @@ class AArr:
         return AArr(shape, [d[p] for p in pos], self.dtype)
 
     def setitem(self, I, idx, v):
+        m = force(idx)
+        if isinstance(m, AArr) and m.shape == self.shape and m.data and all(isinstance(force(x), (bool, SBool)) for x in m.data):
+            # boolean mask of the same shape: every element becomes ite(mask, value, old) - no path fork
+            v = force(v)
+            if isinstance(v, (AArr, list, tuple)):
+                raise OutOfSubset('boolean-mask assignment of an array value')
+            d = self.data
+            for k, mk in enumerate(m.data):
+                mk = force(mk)
+                if isinstance(mk, bool):
+                    if mk:
+                        self._buf[self._abs(k)] = self._coerce(v)
+                else:
+                    self._buf[self._abs(k)] = ops.merge([(mk.t, self._coerce(v)), (z3.Not(mk.t), d[k])])
+            return
         shape, pos = self._select(I, idx)
         v = force(v)
         if isinstance(v, AArr):
@@ -662,7 +677,7 @@ def numpy_module():
         'radians': _B('radians', _elementwise(radians)), 'deg2rad': _B('deg2rad', _elementwise(radians)),
         'conj': _B('conj', _elementwise(ops.conj)), 'conjugate': _B('conj', _elementwise(ops.conj)),
         'real': _B('real', _elementwise(ops.real_part)), 'imag': _B('imag', _elementwise(ops.imag_part)),
-        'mod': _B('mod', np_mod), 'log10': _B('log10', np_log10), 'isclose': _B('isclose', np_isclose),
+        'mod': _B('mod', np_mod), 'log10': _B('log10', np_log10), 'isclose': _B('isclose', lambda a, b, rtol=1e-05, atol=1e-08: (force(a).map(lambda x: np_isclose(x, b, rtol, atol)) if isinstance(force(a), AArr) else np_isclose(a, b, rtol, atol))),
         'fmod': _B('fmod', lambda x, y: _fmod(x, y)),
         'array': _B('array', np_array), 'zeros': _B('zeros', _zeros), 'ones': _B('ones', np_ones), 'eye': _B('eye', _eye),
         'empty': _B('empty', np_empty), 'ndarray': _B('ndarray', np_ndarray),
